@@ -19,7 +19,7 @@ import (
 	"verifharness/hx"
 )
 
-var stats = evid.New("C07", "rapid: a history creates 0..N repositories (N=40 quick, 300 thorough; names over letters/digits/hyphen, many being prefixes of others); 1-3 'focus' repos whose names are preferably prefixes of one another get 0..N bundles (harness-chosen KSUIDs, several per second, created out of order; real uploads, descriptors written at the documented path, and leftovers of interrupted uploads), 0..N labels (core API; few distinct bundle IDs so the sort key has ties; prefix-related names), 0..N diamonds (CreateDiamond/Cancel/Commit or written descriptors; initialized/canceled/done) each with 0..N splits (CreateSplit/Split.Upload or written descriptors; user-style and KSUID split IDs; 0-2 generations with 0-60 file-list index objects each). One EVALUATION = one listing call (ListRepos/ListBundles/ListLabels[prefix]/ListDiamonds/ListSplits or its *Apply variant) with BatchSize in {1,2,3,5,8,64,1024,2048} or any 1..2048 and ConcurrentList in {1,2,7,32} or any 1..32, compared with the reference model: returned IDs == model set, each once (diamonds/splits: with the state of the final descriptor when there is one); order: bundles strictly ascending by ID; repos/labels: pages of BatchSize keys in key order, each page sorted by name / by bundle ID; diamonds/splits: non-decreasing start time when one page holds all keys under the scanned prefix. Non-trivial: >= 2 pages, or foreign keys under the scanned prefix (split descriptors and file lists, leftovers), or a prefix-related sibling repo holding objects of the kind; distinct by (kind, #objects class, page-size class, #pages class, foreign-key class, sibling flag).")
+var stats = evid.New("C07", "rapid: a history creates 0..N repositories (N=40 quick, 300 thorough; names over letters/digits/hyphen, many being prefixes of others); 1-3 'focus' repos whose names are preferably prefixes of one another get 0..N bundles (harness-chosen KSUIDs, several per second, created out of order; real uploads, descriptors written at the documented path, and leftovers of interrupted uploads), 0..N labels (core API; few distinct bundle IDs so the sort key has ties; prefix-related names), 0..N diamonds (CreateDiamond/Cancel/Commit or written descriptors; initialized/canceled/done) each with 0..N splits (CreateSplit/Split.Upload or written descriptors; user-style and KSUID split IDs; 0-2 generations with 0-60 file-list index objects each). One EVALUATION = one listing call (ListRepos/ListBundles[also with WithMinimalBundle, as squash lists]/ListLabels[prefix]/ListDiamonds/ListSplits or its *Apply variant) with BatchSize in {1,2,3,5,8,64,1024,2048} or any 1..2048 and ConcurrentList in {1,2,7,32} or any 1..32, compared with the reference model: returned IDs == model set, each once (diamonds/splits: with the state of the final descriptor when there is one); order: bundles strictly ascending by ID; repos/labels: pages of BatchSize keys in key order, each page sorted by name / by bundle ID; diamonds/splits: non-decreasing start time when one page holds all keys under the scanned prefix. Non-trivial: >= 2 pages, or foreign keys under the scanned prefix (split descriptors and file lists, leftovers), or a prefix-related sibling repo holding objects of the kind; distinct by (kind, #objects class, page-size class, #pages class, foreign-key class, sibling flag).")
 
 func TestMain(m *testing.M) {
 	code := m.Run()
@@ -42,10 +42,14 @@ type item struct {
 }
 
 func opts(l listT) []core.Option {
-	if l.NoOpts {
-		return nil
+	var o []core.Option
+	if !l.NoOpts {
+		o = []core.Option{core.BatchSize(l.Batch), core.ConcurrentList(l.Conc)}
 	}
-	return []core.Option{core.BatchSize(l.Batch), core.ConcurrentList(l.Conc)}
+	if l.Minimal {
+		o = append(o, core.WithMinimalBundle(true))
+	}
+	return o
 }
 
 func effBatch(l listT) int {
@@ -503,6 +507,10 @@ func runCase(c caseT, record bool, exclude bool) error {
 		if record {
 			nt := v.pages >= 2 || v.foreign > 0 || v.sibling
 			sig := fmt.Sprintf("%s n=%s batch=%s pages=%s foreign=%s sib=%v", l.Kind, cls(v.nobj), batchCls(l), pagesCls(v.pages), foreignCls(v.foreign), v.sibling)
+			if l.Minimal {
+				sig += " minimal"
+				stats.Count("minimal_bundle_listings", 1)
+			}
 			lc := l
 			stats.Case(sig, nt, func() interface{} {
 				return map[string]interface{}{"listing": lc, "objects": v.nobj, "pages": v.pages, "foreign_keys": v.foreign, "sibling": v.sibling, "profile": c.Profile}
